@@ -23,7 +23,29 @@ use std::time::{Duration, SystemTime};
 const HEAP_LIMIT: isize = 64 << 20;
 const CACHE_SIZE: usize = 64 << 10;
 
+thread_local! {
+    /// receiver configuration variant of the histories run by this thread: 0 = the base configuration, 1 = FDT
+    /// expiry check off, receive-once off, no error memory, no object time-out (recorded in the replay case)
+    static RXV: std::cell::Cell<u8> = const { std::cell::Cell::new(0) };
+}
+fn set_rxv(v: u8) {
+    RXV.with(|c| c.set(v));
+}
+fn rxv() -> u8 {
+    RXV.with(|c| c.get())
+}
+
 fn rx_config() -> flute::receiver::Config {
+    if rxv() == 1 {
+        return flute::receiver::Config {
+            max_objects_error: 0,
+            session_timeout: Some(Duration::from_secs(5)),
+            object_timeout: None,
+            object_max_cache_size: Some(CACHE_SIZE),
+            object_receive_once: false,
+            enable_fdt_expiration_check: false,
+        };
+    }
     flute::receiver::Config {
         max_objects_error: 2,
         session_timeout: None,
@@ -211,7 +233,7 @@ pub struct Case {
 }
 
 fn case_of(hist: &[&[u8]]) -> serde_json::Value {
-    json!({"check": "history", "case": {"hist": hist.iter().map(|p| hex(p)).collect::<Vec<_>>()}})
+    json!({"check": "history", "case": {"hist": hist.iter().map(|p| hex(p)).collect::<Vec<_>>(), "rxv": rxv()}})
 }
 
 pub fn replay(v: &serde_json::Value) -> Vec<Violation> {
@@ -223,6 +245,7 @@ pub fn replay(v: &serde_json::Value) -> Vec<Violation> {
         return run_history_real_writer(&refs, v["case"]["kind"].as_u64().unwrap_or(0) as u8, &mut g).into_iter().map(|(key, what)| Violation { key, what, case: v.clone() }).collect();
     }
     let fu = follow_up();
+    set_rxv(v["case"]["rxv"].as_u64().unwrap_or(0) as u8);
     run_history(&refs, Some(&fu), &mut g).into_iter().map(|(key, what)| Violation { key, what, case: v.clone() }).collect()
 }
 
@@ -741,6 +764,12 @@ pub fn run(thorough: bool) -> i32 {
                 }
             }
         }
+        // (b2) Expires at every boundary of its representations (32-bit NTP seconds, the NTP/Unix epoch offset,
+        // i64, u64, not a number), on a File that is otherwise valid
+        for exp in ["1", "2208988799", "2208988800", "2208988801", "2147483647", "2147483648", "4294967295", "4294967296", "4294967297", "6503956096", "9223372036854775807", "9223372036854775808", "9223372039063764607", "9223372039063764608", "9223372039063764609", "18446744073709551615", "18446744073709551616", "-1", "1e3", " 5", "0x10"] {
+            let f = FileX::new("5", "file:///x").attr("Content-Length", "21").attr("Transfer-Length", "21").attr("FEC-OTI-FEC-Encoding-ID", "0").attr("FEC-OTI-Maximum-Source-Block-Length", "2").attr("FEC-OTI-Encoding-Symbol-Length", "8");
+            xmls.push(FdtX::new(exp).file(f).xml());
+        }
         // (c) malformed XML: truncation at every byte, wrong root, duplicate attributes, junk
         let valid = FdtX::new(&exp_ok)
             .file(FileX::new("5", "file:///x").attr("Content-Length", "21").attr("Transfer-Length", "21").attr("FEC-OTI-FEC-Encoding-ID", "0").attr("FEC-OTI-Maximum-Source-Block-Length", "2").attr("FEC-OTI-Encoding-Symbol-Length", "8"))
@@ -798,11 +827,16 @@ pub fn run(thorough: bool) -> i32 {
                     h3.extend(f.iter().map(|p| &p[..]));
                     h3.push(&obj_pkts_fti[2][..]);
                     h3.push(&obj_pkts_fti[1][..]);
-                    alloc::set_context(Some(format!("C04|{}", case_of(&h1))));
-                    for hist in [h1, h2, h3] {
-                        let r = run_history(&hist, Some(&fu2), &mut g);
-                        note(&mut found, r, &hist);
+                    // both receiver configurations (the second one: expiry check off, receive-once off, ...)
+                    for v in [0u8, 1] {
+                        set_rxv(v);
+                        alloc::set_context(Some(format!("C04|{}", case_of(&h1))));
+                        for hist in [&h1, &h2, &h3] {
+                            let r = run_history(hist, Some(&fu2), &mut g);
+                            note(&mut found, r, hist);
+                        }
                     }
+                    set_rxv(0);
                 }
                 alloc::set_context(None);
                 (g, found)
